@@ -253,6 +253,56 @@ chk.case('static-open-sites', line('static', [[k, ' '.join(v)] for k, v in sorte
          'ok' if not static_errs else 'bypass', None, static_errs, True)
 
 
+# ---- A2. every call under vermouth/ and bin/ that can create, change or remove a file ------------------------
+import c07_static
+
+# The sites that write without the deferred writer, by (file, what is called, mode): how many there are and why
+# that is no violation.  No line numbers, no function or variable names: moving code or renaming does not matter.
+ALLOWED_UNDEFERRED = {
+    ('vermouth/file_writer.py', 'tempfile.mkstemp', '-'): (1, 'temp: the writer\'s temporary file (in the system temp directory)'),
+    ('vermouth/file_writer.py', 'os.fdopen', '?'): (1, 'temp: handle of the temporary'),
+    ('vermouth/file_writer.py', 'shutil.copy2', '-'): (1, 'temp: r+ copies the destination INTO the temporary'),
+    ('vermouth/file_writer.py', 'open', '?'): (2, 'temp: reopen of a pending temporary; pass-through of a read-only open'),
+    ('vermouth/file_writer.py', 'os.remove', '-'): (3, 'temp: removes temporaries (failed r+, after append, close())'),
+    ('vermouth/file_writer.py', 'shutil.move', '-'): (2, 'finalisation: backup move and move into place'),
+    ('vermouth/file_writer.py', 'open', 'ab'): (1, 'finalisation: append'),
+    ('vermouth/dssp/dssp.py', 'tempfile.mkstemp', '-'): (2, 'temp: DSSP/MDTraj input dump dssp_in_*.pdb in the working directory (F-C07-2)'),
+    ('vermouth/dssp/dssp.py', 'os.fdopen', 'w'): (2, 'temp: handle of the DSSP input dump'),
+    ('vermouth/dssp/dssp.py', 'os.remove', '-'): (2, 'temp: removes the DSSP input dump'),
+    ('vermouth/dssp/dssp.py', 'subprocess.run', '-'): (2, 'external: the DSSP executable (--version, -i <dump>)'),
+}
+sites_errs = []
+try:
+    SITES, scan_stats = c07_static.scan(REPO)
+except Exception as e:  # noqa
+    SITES, scan_stats = [], {}
+    sites_errs.append('cannot analyse the sources: %r' % (e,))
+by_key = {}
+for st in SITES:
+    chk.count('site_%s%s' % (st['cls'], '' if st['reachable'] else '_unreachable'))
+    by_key.setdefault((st['file'], st['callee'], st['mode'], st['cls']), []).append(st)
+inventory = []
+for (f, callee, mode, cls), lst in sorted(by_key.items()):
+    inventory.append([f, callee, mode, cls, len(lst), sum(1 for x in lst if x['reachable'])])
+    if cls != 'undeferred':
+        continue
+    allowed, why = ALLOWED_UNDEFERRED.get((f, callee, mode), (0, None))
+    if len(lst) > allowed:
+        where = ', '.join('%s:%d in %s()%s' % (x['file'], x['line'], x['function'], '' if x['reachable'] else ' [not reachable from the CLI]')
+                          for x in sorted(lst, key=lambda x: x['line']))
+        msg = ('%d call(s) of %s%s in %s write without the deferred writer, %d accounted for%s: %s'
+               % (len(lst), callee, '' if mode == '-' else '(mode %r)' % mode, f, allowed,
+                  ' (%s)' % why if why else '', where))
+        if any(x['reachable'] for x in lst):
+            sites_errs.append(msg)
+        else:
+            chk.notes.append('static: ' + msg)
+if not any(st['cls'] == 'debug' for st in SITES) and not sites_errs:
+    sites_errs.append('no explicitly undeferred debug dump found in bin/martinize2 (anchor moved?)')
+chk.extra['write_sites'] = {'stats': scan_stats, 'inventory': inventory}
+chk.case('static-write-sites', line('sites', [[a, b, c, d, str(e)] for a, b, c, d, e, g in inventory]),
+         'ok' if not sites_errs else 'undeferred-write-site', None, sites_errs, True)
+
 # ----------------------------------------------------------------------------
 # B. deferred writer histories
 # ----------------------------------------------------------------------------
@@ -641,6 +691,106 @@ for ln, impl, mo, (cid, files, ops, out) in zip(lines, impls, models, meta):
         chk.count('hist_all_backups_1..N_taken')
     chk.case(cid, ln, impl, mo, errs, pre or inner, finding='F-C07-4' if (errs and sig4) else None)
 
+# ---- B2. white box: a pending table written by hand -------------------------------------------------------------
+# write() has two branches that no history of open() reaches (`write_error_branches_unreachable`): a stored mode
+# with none of a, w, + raises AssertionError ('r' in it) or KeyError; close() tolerates a temporary that has vanished.
+# Here the table is filled in directly and the result compared with `finalizeFuel` / `closeFs` on the same table.
+def run_raw(files, table, missing, do_close):
+    """files: {name: bytes}; table: [(name, mode, bytes)]; missing: indices whose temporary is deleted before the call"""
+    d = tempfile.mkdtemp(dir=SCRATCH)
+    td = os.path.join(d, '_tmp')
+    os.mkdir(td)
+    for n, c in files.items():
+        with open(os.path.join(d, n), 'wb') as f:
+            f.write(c)
+    W = type.__call__(DeferredFileWriter)
+    tmpno = {}
+    import pathlib
+    for k, (n, mode, data) in enumerate(table):
+        tp = os.path.join(td, 't%d' % k)
+        with open(tp, 'wb') as f:
+            f.write(data)
+        tmpno[tp] = k
+        W.open_files.append([tp, pathlib.Path(d) / n, mode])
+    for k in missing:
+        os.remove(os.path.join(td, 't%d' % k))
+    res = 'ok'
+    try:
+        if do_close:
+            W.close()
+        else:
+            W.write()
+    except AssertionError:
+        res = 'assertion'
+    except KeyError:
+        res = 'keyerror'
+    except Exception as e:  # noqa
+        res = 'exception:' + type(e).__name__
+    pending = [[tmpno[tp], os.path.basename(str(fp)), mode_kind(m)] for tp, fp, m in W.open_files]
+    user = snapshot_dir(d)
+    tmps = {'tmp/%d' % tmpno[os.path.join(td, n)]: open(os.path.join(td, n), 'rb').read() for n in os.listdir(td)}
+    W.open_files.clear()
+    shutil.rmtree(d, ignore_errors=True)
+    return res, pending, user, tmps
+
+
+rng = chk.rng('raw')
+raw_rows = []
+for i in range(400 if chk.thorough else 60):
+    base = rng.choice(BASES)
+    names = [base] + rng.sample([b for b in BASES if b != base], rng.randint(0, 2))
+    files = {n: bytes(rng.choice(b'abc\n') for _ in range(rng.randint(0, 6))) for n in names + ['#%s.1#' % base]
+             if rng.random() < 0.6}
+    do_close = rng.random() < 0.4
+    table = []
+    for n in rng.sample(names, rng.randint(1, len(names))):
+        if do_close or rng.random() < 0.6:
+            mode = rng.choice(['w', 'a', 'w+', 'a+', 'r+', 'wb', 'ab'])
+        else:
+            mode = rng.choice(['r', 'rb', 'x', 'xb', 'rt'])
+        table.append((n, mode, bytes(rng.choice(b'XYZ\n') for _ in range(rng.randint(0, 5)))))
+    missing = [k for k in range(len(table)) if do_close and rng.random() < 0.5]
+    res, pending, user, tmps = run_raw(files, table, missing, do_close)
+    fl = [[parse_name(n), b2s(c)] for n, c in files.items()]
+    fl += [[[2, k], b2s(data)] for k, (n, mode, data) in enumerate(table) if k not in missing]
+    pl = [[k, parse_name(n), mode_kind(mode)] for k, (n, mode, data) in enumerate(table)]
+    snap = dict((k, b2s(v)) for k, v in user.items())
+    snap.update((k, b2s(v)) for k, v in tmps.items())
+    snap_enc = enc([[k, snap[k]] for k in sorted(snap)])
+    errs = []
+    if do_close:
+        ln = line('rawclose', fl, pl)
+        impl = snap_enc if res == 'ok' else res
+        chk.count('raw_close' + ('_tmp_vanished' if missing else ''))
+        if res != 'ok':
+            errs.append('close() raised %s on a pending table with vanished temporaries %s' % (res, missing))
+        if user != files:
+            errs.append('close() changed the destination directory')
+        if tmps or pending:
+            errs.append('close() left temporaries %s / pending entries %s' % (sorted(tmps), pending))
+    else:
+        ln = line('rawfin', fl, pl, None)
+        impl = enc_list([enc(res), enc(pending), snap_enc])
+        bad = [k for k, (n, mode, data) in enumerate(table) if not any(c in mode for c in 'wa+')]
+        chk.count('raw_write_' + res)
+        want = 'ok' if not bad else ('assertion' if 'r' in table[bad[0]][1] else 'keyerror')
+        if res != want:
+            errs.append('write() on a table whose entry %s has mode %r: %s, expected %s'
+                        % (bad[:1], table[bad[0]][1] if bad else None, res, want))
+        # whatever happened: no pre-existing file is lost, entries behind the offending one stay pending with their data
+        for n, c in files.items():
+            cands = closure_names(n, user)
+            if not any(user[m] == c or (user[m].startswith(c) and any(t[0] == m and 'a' in t[1] for t in table)) for m in cands):
+                errs.append('pre-existing file %r lost by write() (%s)' % (n, res))
+        if bad:
+            for k in range(bad[0] + 1, len(table)):
+                if [k, table[k][0], mode_kind(table[k][1])] not in pending or tmps.get('tmp/%d' % k) != table[k][2]:
+                    errs.append('entry %d behind the offending one is no longer pending with its data' % k)
+    raw_rows.append(('raw-%d' % i, ln, impl, errs, bool(files)))
+raw_models = chk.drv.ask([r[1] for r in raw_rows]) if chk.lean_ok else [None] * len(raw_rows)
+for (cid, ln, impl, errs, nontriv), mo in zip(raw_rows, raw_models):
+    chk.case(cid, ln, impl, mo, errs, nontriv)
+
 # ----------------------------------------------------------------------------
 # C. the CLI: gate and set of output files
 # ----------------------------------------------------------------------------
@@ -924,6 +1074,147 @@ EMPTY_DIR = os.path.join(INPUTS, 'emptydir')
 os.makedirs(EMPTY_DIR, exist_ok=True)
 NOT_A_DIR = os.path.join(INPUTS, 'not_a_dir')
 open(NOT_A_DIR, 'w').write('x\n')
+
+
+# ---- B3. the library writers called directly -----------------------------------------------------------------------
+# write_gro is not reachable from the CLI (entry always calls write_pdb, whatever the extension of -x); the branches
+# of write_atomtypes / write_nonbond_params for conditionals, groups, comments and C6C12 and the error paths of
+# run_dssp are not reached by the CLI runs either.  Each writer is called on a small system in a scratch directory:
+# the directory must be unchanged after the call and hold exactly what was written after write(); the history
+# (one open in mode w with what was written, then finalise) is compared with the Lean model.
+import vermouth
+import vermouth.gmx.gro as GRO
+import vermouth.gmx.topology as GT
+import vermouth.dssp.dssp as DS
+import vermouth.pdb.pdb as PDB
+from vermouth.gmx.topology import Atomtype, NonbondParam
+quiet_vermouth_logs()
+
+
+def small_system(velocities=False, force_field=True):
+    system = vermouth.System()
+    vermouth.PDBInput(os.path.join(REPO, 'vermouth', 'tests', 'data', 'integration_tests', 'tier-0', 'dipro-termini', 'aa.pdb')).run_system(system)
+    system.meta['header'] = ['written by the C07 check']
+    for mol in system.molecules:
+        mol.meta['moltype'] = 'lib_0'
+        mol.nrexcl = 1
+        for idx in mol.nodes:
+            mol.nodes[idx]['chain'] = 'A'
+            mol.nodes[idx].update(atype='P1', charge=0.0, mass=72, charge_group=1)
+            if velocities:
+                mol.nodes[idx]['velocity'] = [0.1, 0.2, 0.3]
+        if not force_field:
+            mol._force_field = None
+    return system
+
+
+def with_params(system):
+    mol = system.molecules[0]
+    n0 = next(iter(mol.nodes))
+    system.gmx_topology_params['atomtypes'] += [
+        Atomtype(molecule=mol, node=n0, sigma=0.47, epsilon=3.5, meta={}),
+        Atomtype(molecule=mol, node=n0, sigma=0.5, epsilon=1.0, meta={'ifdef': 'FLEX', 'group': 'grp', 'comment': ['c1', 'c2']}),
+        Atomtype(molecule=mol, node=n0, sigma=0.5, epsilon=1.0, meta={'ifndef': 'STIFF'})]
+    system.gmx_topology_params['nonbond_params'] += [
+        NonbondParam(atoms=('P1', 'P2'), sigma=0.47, epsilon=3.5, meta={'comment': ['x']}),
+        NonbondParam(atoms=('P1',), sigma=0.5, epsilon=1.0, meta={'ifdef': 'FLEX', 'group': 'self'}),
+        NonbondParam(atoms=('P3', 'P1'), sigma=0.5, epsilon=1.0, meta={'ifndef': 'STIFF'})]
+    return system
+
+
+DSSP_FAIL = os.path.join(SCRATCH, 'dssp_fail')
+with open(DSSP_FAIL, 'w') as f:
+    f.write("#!/bin/sh\ncase \"$1\" in --version) echo 'mkdssp version 3.0.0';; *) echo broken >&2; exit 3;; esac\n")
+os.chmod(DSSP_FAIL, 0o755)
+DSSP_NOVERSION = os.path.join(SCRATCH, 'dssp_noversion')
+with open(DSSP_NOVERSION, 'w') as f:
+    f.write("#!/bin/sh\necho 'no version here'\n")
+os.chmod(DSSP_NOVERSION, 0o755)
+
+
+def lib_case(cid, call, dest, pre_names=(), expect_exc=None, keeps=None, undeferred=False):
+    """call(dest_path) writes `dest` (a name in a fresh directory)"""
+    d = tempfile.mkdtemp(dir=SCRATCH)
+    pre = {n: ('old %s\n' % n).encode() for n in pre_names}
+    for n, c in pre.items():
+        with open(os.path.join(d, n), 'wb') as f:
+            f.write(c)
+    W = DeferredFileWriter()
+    W.close()
+    cwd = os.getcwd()
+    os.chdir(d)
+    errs, exc = [], None
+    try:
+        call(dest)
+    except Exception as e:  # noqa
+        exc = type(e).__name__
+    finally:
+        os.chdir(cwd)
+    mid = snapshot_dir(d)
+    pend = [(os.path.basename(str(fp)), mode_kind(m), open(tp, 'rb').read()) for tp, fp, m in W.open_files]
+    dests = [dest] if isinstance(dest, str) else list(dest)
+    if exc != expect_exc:
+        errs.append('%s: raised %r, expected %r' % (cid, exc, expect_exc))
+    new_mid = sorted(set(mid) - set(pre))
+    if undeferred:
+        if dests[0] not in mid:
+            errs.append('defer_writing=False did not write %r at once' % dest)
+    else:
+        if [n for n in new_mid if not (keeps and re.fullmatch(keeps, n))] or any(mid.get(n) != pre[n] for n in pre):
+            errs.append('the writer changed the directory before finalisation: new %s' % new_mid)
+        if expect_exc is None and [p[0] for p in pend] != dests:
+            errs.append('pending table after the call: %s, expected %r' % ([p[0] for p in pend], dests))
+    W.write()
+    after = snapshot_dir(d)
+    shutil.rmtree(d, ignore_errors=True)
+    for n, k, c in pend:
+        if after.get(n) != c:
+            errs.append('%r does not hold what was written for it' % n)
+        if n in pre and after.get(first_free_backup(n, pre)) != pre[n]:
+            errs.append('old %r not kept at its first free backup name' % n)
+    chk.count('lib_' + cid.split('/')[0])
+    files = [[parse_name(n), b2s(c)] for n, c in pre.items()]
+    ops = [[0, parse_name(n), k, b2s(c)] for n, k, c in pend] + [[1, None]]
+    ln = line('run', files, ops)
+    snaps = []
+    acc = dict((n, b2s(c)) for n, c in pre.items())
+    pl = []
+    for i, (n, k, c) in enumerate(pend):
+        acc['tmp/%d' % i] = b2s(c)
+        pl.append([i, n, k])
+        snaps.append(enc_list(['ok', enc(pl), enc([[x, acc[x]] for x in sorted(acc)])]))
+    fin = dict((n, b2s(c)) for n, c in after.items() if not (keeps and re.fullmatch(keeps, n)))
+    snaps.append(enc_list(['ok', enc([]), enc([[x, fin[x]] for x in sorted(fin)])]))
+    return cid, ln, enc_list(snaps), errs, undeferred or exc is not None
+
+
+lib_rows = []
+SYS, SYSV, SYSP = small_system(), small_system(velocities=True), with_params(small_system())
+lib_rows.append(lib_case('write_gro', lambda p: GRO.write_gro(SYS, p, box=(1, 2, 3)), 'out.gro', ['out.gro', '#out.gro.1#']))
+lib_rows.append(lib_case('write_gro/velocities', lambda p: GRO.write_gro(SYSV, p, precision=4, title='t'), 'v.gro'))
+lib_rows.append(lib_case('write_gro/undeferred', lambda p: GRO.write_gro(SYS, p, defer_writing=False), 'now.gro', undeferred=True))
+lib_rows.append(lib_case('write_pdb', lambda p: PDB.write_pdb(SYS, p), 'out.pdb', ['out.pdb']))
+lib_rows.append(lib_case('write_pdb/undeferred', lambda p: PDB.write_pdb(SYS, p, defer_writing=False), 'now.pdb', undeferred=True))
+lib_rows.append(lib_case('write_atomtypes', lambda p: GT.write_atomtypes(SYSP, p), 'at.itp', ['at.itp']))
+lib_rows.append(lib_case('write_atomtypes/C6C12', lambda p: GT.write_atomtypes(SYSP, p, C6C12=True), 'at6.itp'))
+lib_rows.append(lib_case('write_nonbond_params', lambda p: GT.write_nonbond_params(SYSP, p), 'nb.itp', ['nb.itp', '#nb.itp.1#']))
+lib_rows.append(lib_case('write_nonbond_params/C6C12', lambda p: GT.write_nonbond_params(SYSP, p, C6C12=True), 'nb6.itp'))
+lib_rows.append(lib_case('write_contacts', lambda p: __import__('vermouth.rcsu.contact_map', fromlist=['x'])._write_contacts(p, [], [], None), 'c.out', ['c.out']))
+lib_rows.append(lib_case('run_dssp/savefile', lambda p: DS.run_dssp(SYS, executable=DSSP_OK, savedir='.'), 'chain_A.ssd', ['chain_A.ssd']))
+for cid_, exe_, exc_, keeps_ in (('run_dssp/no-savedir', DSSP_OK, None, None), ('run_dssp/missing-exe', os.path.join(SCRATCH, 'absent'), 'DSSPError', None),
+                                 ('run_dssp/no-version', DSSP_NOVERSION, 'DSSPError', None),
+                                 # "If an error is encountered ... preserve the DSSP input file": kept on purpose
+                                 ('run_dssp/failing-exe', DSSP_FAIL, 'DSSPError', r'dssp_in_.*\.pdb')):
+    r_ = lib_case(cid_, lambda p, exe_=exe_: DS.run_dssp(SYS, executable=exe_, savedir=None), 'unused', expect_exc=exc_, keeps=keeps_)
+    # nothing is pending in these calls
+    lib_rows.append(r_[:3] + ([e for e in r_[3] if 'pending table' not in e],) + r_[4:])
+lib_rows.append(lib_case('write_gmx_topology/no-force-field',
+                         lambda p: GT.write_gmx_topology(small_system(force_field=False), 'lib.top', itp_paths=[]), ['lib_0.itp', 'lib.top']))
+lib_rows.append(lib_case('write_gmx_topology/empty', lambda p: GT.write_gmx_topology(vermouth.System(), p), 'e.top', expect_exc='ValueError'))
+lib_models = chk.drv.ask([r[1] for r in lib_rows]) if chk.lean_ok else [None] * len(lib_rows)
+for (cid, ln, impl, errs, special), mo in zip(lib_rows, lib_models):
+    chk.case('lib-' + cid, ln, impl, None if special else mo, errs, True)
+
 
 
 # ---- one CLI job ----------------------------------------------------------------------------------
@@ -1260,7 +1551,7 @@ if HAVE_MDTRAJ:
 J('cov-cys', TRP, M3 + ['-cys', '0.5'] + W1, need_warn=True)
 J('cov-cys-none', TRP, M3 + ['-cys', 'none', '-resid', 'input'])
 J('cov-posres', DIPRO, M3 + ['-p', 'backbone', '-pf', '500'] + W1, need_warn=True)
-J('cov-posres-all', DIPRO, M3 + ['-p', 'all'])
+J('cov-posres-all', DIPRO, M3 + ['-p', 'all', '-ignore', ','.join('X%03d' % k for k in range(900))])   # > 4000 characters of command line
 J('cov-elastic', TRP, M3 + ['-elastic', '-eunit', 'chain'] + W1, need_warn=True)
 J('cov-elastic-all', CH2, M3 + ['-elastic', '-eunit', 'all', '-eb', 'BB'])
 J('cov-elastic-region', TRP, M3 + ['-elastic', '-eunit', '1:10,11:20'] + W1, maxwarn=[['general']], need_warn=True)
